@@ -263,7 +263,10 @@ pub fn run(rep: &mut Report) {
         });
         let res = match drx.recv_timeout(std::time::Duration::from_secs(20)) {
             Ok(r) => r,
-            Err(_) => Err("producer() did not return within 20 s".to_string()),
+            Err(_) => {
+                super::HANGS.fetch_add(1, std::sync::atomic::Ordering::Relaxed);
+                Err("producer() did not return within 20 s".to_string())
+            }
         };
         let mut items = 0u64;
         while let Ok(x) = receiver.try_recv() {
